@@ -457,9 +457,18 @@ class CollisionArray:
             targetGrid.N - 1,
             targetGrid.N - 1,
         )
-        interpolatedData = np.array(source.polynomialData.evaluate(gridPoints, (1, 2)))[
-            ..., : targetGrid.N - 1, : targetGrid.N - 1
-        ].reshape(newShape)
+        # evaluate() returns axes (point, a, b, j, k) with point = (alpha, beta) flattened:
+        # split the point axis and move it between the particle axes -> (a, alpha, beta, b, j, k)
+        nTarget = targetGrid.N - 1
+        nParticles = len(source.particles)
+        interpolatedData = (
+            np.array(source.polynomialData.evaluate(gridPoints, (1, 2)))[
+                ..., :nTarget, :nTarget
+            ]
+            .reshape((nTarget, nTarget, nParticles, nParticles, nTarget, nTarget))
+            .transpose((2, 0, 1, 3, 4, 5))
+        )
+        assert interpolatedData.shape == newShape
 
         interpolatedPolynomial = Polynomial(
             interpolatedData,
